@@ -121,9 +121,26 @@ def showQueries (c : WCif) (path : Path) : String :=
     | _ => "-"
   s!" q:{qAssertBlock path}:{nf}:{nl}:{cf}:{il}"
 
+/-- bit 1 of the `lq` mask: a handler's own pass over the packets through the loop handle (harness/x_walk.c `log_loop`) -/
+def showLoopIter (c : WCif) (path : Path) (i : Nat) : String :=
+  match qLoopPackets c path i with
+  | some 0 => " i:36:0:0:-1"
+  | some n => s!" i:0:{n}:1:0"
+  | none => " i:?"
+
+/-- bit 2 of the `lq` mask: category and names through the handle of the loop the packet / item belongs to (the handle passed to
+    loop_start: container `path`, position `i`) -/
+def showLoopOf (c : WCif) (path : Path) (i : Nat) : String :=
+  match qLoopCategory c path i, qLoopNames c path i with
+  | some cat, some names => " l:" ++ hexOpt cat ++ ":" ++ toString names.length ++ ":" ++ ",".intercalate (names.map hex)
+  | _, _ => " l:?"
+
 /-- a callback with the answers of the handle it was given -/
-def showEvH (c : WCif) : Ev × Handle → String
+def showEvH (mask : Nat) (c : WCif) : Ev × Handle → String
   | (e, .cont path) => showEv e ++ showQueries c path
+  | (e, .loop path i) => showEv e ++ (if mask % 2 = 1 then showLoopIter c path i else "")
+  | (e, .packet path i _) => showEv e ++ (if mask / 2 % 2 = 1 then showLoopOf c path i else "")
+  | (e, .item path i _ _) => showEv e ++ (if mask / 2 % 2 = 1 then showLoopOf c path i else "")
   | (e, _) => showEv e
 
 def splitAt (sep : String) (xs : List String) : List String × Option (List String) :=
@@ -135,6 +152,9 @@ def handle : Handler := fun args =>
   if args == ["consts"] then
     some s!"wk consts {CONTINUE} {SKIP_CURRENT} {SKIP_SIBLINGS} {END} {OK} {FINISHED} {EMPTY_LOOP}"
   else
+  let (mask, args) := match args with
+    | a :: r => if a.startsWith "lq" then ((a.drop 2).toNat?.getD 0, r) else (0, args)
+    | [] => (0, args)
   let (cifToks, rest) := splitAt "prog" args
   match rest with
   | none => none
@@ -152,6 +172,6 @@ def handle : Handler := fun args =>
       -- cross-check of the two models on every case: forgetting the handles must give Model/Walk.lean's walk (C14_handles_refine)
       let (log0, rc0) := walk (progOf tbl) cif
       if rc0 != rc || (log0.map showEv) != (log.map (fun x => showEv x.1)) then pure "wk MODELS-DIFFER" else
-      pure (s!"wk rc={rc} n={log.length} log=" ++ String.join (log.map (showEvH cif)))
+      pure (s!"wk rc={rc} n={log.length} log=" ++ String.join (log.map (showEvH mask cif)))
 
 end Driver.Fam.Walk
